@@ -133,8 +133,11 @@ class Case:
         self.records = None
 
     def key(self):
-        return {'lang': self.lang, 'mode': self.mode, 'seed': self.seed, 'switches': self.switches,
-                'limits': self.limits, 'tape': self.tape if self.mode == 'tape' else None}
+        k = {'lang': self.lang, 'mode': self.mode, 'seed': self.seed, 'switches': self.switches,
+             'limits': self.limits, 'tape': self.tape if self.mode in ('tape', 'handmade') else None}
+        if self.mode == 'handmade':
+            k['handmade'] = getattr(self, 'labels', [])
+        return k
 
 
 _wrapped = {}
@@ -225,8 +228,22 @@ def gen_case(lang, mode='seed', seed=0, switches=(), limits=None, data=None, tap
     return case
 
 
+def hand_case(lang, draw=None, seed=None, trace=None):
+    """A hand-shaped program (vlib/handprog.py) as a Case: mode 'handmade', tape = the trace of choices (replayable)."""
+    from vlib import handprog
+    boot.init(lang)
+    boot.reset_case(seed=0)
+    ch = handprog.Chooser(draw=draw, rnd=pyrandom.Random(seed) if seed is not None else None, trace=trace)
+    case = Case(lang, 'handmade', seed or 0, (), {})
+    case.program, case.labels, case.tape = handprog.build(lang, ch)
+    case.counters = {'generate_expr_calls': 0, 'max_generator_depth': 0, 'max_generate_expr_nesting': 0}
+    return case
+
+
 def regen(key, recorder=None, budget=20000):
     """Re-generate a case from its replay key (seed or tape)."""
+    if key.get('mode') == 'handmade':
+        return hand_case(key['lang'], trace=key.get('tape') or [])
     return gen_case(key['lang'], mode=key['mode'], seed=key.get('seed', 0), switches=key.get('switches', ()),
                     limits=key.get('limits'), tape=key.get('tape') if key['mode'] == 'tape' else None,
                     budget=budget, recorder=recorder)
